@@ -40,6 +40,14 @@ func (v *Votes) Validate() error {
 }
 
 func (v *Voter) Validate() error {
+	// a pending voter has not registered its keys yet, its vote key field holds the key hash
+	if v.Status == VOTER_STATUS_PENDING {
+		if len(v.VoteKey) != sha256.Size {
+			return errors.New("invalid bls pubkey hash length")
+		}
+		return nil
+	}
+
 	if len(v.VoteKey) != goatcrypto.PubkeyLength {
 		return errors.New("invalid bls pubkey length")
 	}
